@@ -202,7 +202,9 @@ def gtl_partition(ctx, rep, t, clause):
             why = f"exclusion set `{excl}` is not set({top})"
             if ok:
                 fw = cfg.reachable([s_ for s_, l in cfg.succ[dn[0].id]])
-                bw = cfg.reachable(use.id, forward=False)
+                # ... up to the return: the promoted list that is RETURNED is the one the exclusion set was taken from
+                retn = [n.id for n in cfg.nodes if n.kind == "stmt" and n.ast is rets[0]]
+                bw = cfg.reachable(retn[0] if retn else use.id, forward=False)
                 stale = [n for n in cfg.nodes if n.id in fw and n.id in bw and n.id != use.id and top in kills_and_gens(cfg, n.id)[0]]
                 ok = not stale
                 why = (f"`{excl} = set({top})` is computed before `{top}` is extended (line {stale[0].lineno if stale else 0}): trials "
